@@ -415,6 +415,7 @@ fn min_cfg() -> EncCfg {
     tags: true,
     simples: true,
     big_strings: false,
+    boundary_strings: false,
   }
 }
 
